@@ -70,6 +70,8 @@ def new_value(rng):
         return rng.choice(['', None])
     if r < 0.92:
         return rng.choice(worlds.DATES)
+    if r < 0.94:
+        return rng.choice(worlds.ODD_VALUES)
     return rng.randint(-50, 50)
 
 
